@@ -9,6 +9,7 @@ from fv.ekfref import RefEKF, cov_menu
 from fv.refmodel import ref_eval
 
 ID = "C09"
+CASE_TIMEOUT_S = 3600  # per-case alarm (seconds); a case that does not finish is reported as a violation
 LEVEL = "model_checking"
 TECHNIQUE = CLAIMS[ID]["technique"]
 RULE = (
